@@ -331,7 +331,7 @@ func solveVacuity(c *Ctx, o *Obligation, dir string) {
 	b.WriteString("(check-sat)\n")
 	f := filepath.Join(dir, sanitize(o.Name)+".smt2")
 	os.WriteFile(f, []byte(b.String()), 0o644)
-	r := runSolverSimple(solvers[0], f, 5)
+	r := runSolverSimple(solvers[0], f, 2)
 	o.Status, o.Solver, o.Ms, o.Output = r.status, r.solver, r.ms, r.out
 	if o.Status != "unsat" {
 		os.Remove(f)
